@@ -14,14 +14,16 @@ from vf.util import close_instance, diff_snap, new_instance, run, snapshot, sql_
 _lit_text = st.lists(
     st.one_of(
         st.sampled_from([";", "'", "\\", "--", "/*", "*/", "\n", " ", "a;b", "-- not a comment", "/* nor this */", "\"", "é", "\U0001F600", "%", "?", ";;", "\\n", "\\'", "x"]),
+        # literals that span lines, with lines that look like whole-line comments or statement ends
+        st.sampled_from(["\n-- b\n", "a\n// b\nc", "\n  -- indented\n", "\n;\n", "\n/* c */\n", "x\n--", "\n//", "\r\n-- crlf\r\n", "\n\n", "\t-- tab\n"]),
         st.text(alphabet="abc XYZ;'-/*\\", max_size=4),
     ),
     max_size=4,
 ).map("".join)
 
 _stmt = st.one_of(
-    st.tuples(st.just("select_lit"), _lit_text, st.sampled_from(["quoted", "quoted", "dollar"])).map(list),
-    st.tuples(st.just("insert"), st.integers(0, 9), _lit_text, st.sampled_from(["quoted", "quoted", "dollar"])).map(list),
+    st.tuples(st.just("select_lit"), _lit_text, st.sampled_from(["quoted", "quoted", "dollar", "raw"])).map(list),
+    st.tuples(st.just("insert"), st.integers(0, 9), _lit_text, st.sampled_from(["quoted", "quoted", "dollar", "raw"])).map(list),
     st.tuples(st.just("update"), st.integers(0, 9), _lit_text, st.just("quoted")).map(list),
     st.tuples(st.just("delete"), _lit_text, st.just("quoted")).map(list),
     st.tuples(st.just("select_all")).map(list),
@@ -60,6 +62,10 @@ def _render_lit(text: str, form: str) -> str | None:
         if "$" in text or text.endswith("\\"):
             return None
         return f"$${text}$$"
+    if form == "raw":  # single-quoted with the line breaks and tabs written as themselves (legal in a Snowflake string constant)
+        return "'" + "".join("''" if ch == "'" else "\\\\" if ch == "\\" else ch for ch in text) + "'"
+    if form != "quoted":
+        raise InvalidCase()
     return sql_str(text)
 
 
@@ -154,6 +160,8 @@ def run_execute_string(case, ctx: Ctx) -> None:
         specials = [ch for ch in (";", "'", "\\", "--", "/*") if any(ch in (st_[1] if isinstance(st_[1], str) else "") or (len(st_) > 2 and isinstance(st_[2], str) and ch in st_[2]) for st_ in case["stmts"] if len(st_) > 1)]
         for ch in specials:
             ctx.cls(f"literal-contains:{ch}")
+        if any(len(st_) > 2 and st_[-1] in ("raw", "dollar") and isinstance(st_[-2], str) and "\n" in st_[-2] for st_ in case["stmts"]):
+            ctx.cls("literal-spans-lines")
         if any(x in text for x in ("-- ", "/*")):
             ctx.cls("comments-between-statements")
         if ";;" in text or "; ;" in text:
@@ -226,7 +234,11 @@ def run_execute_string(case, ctx: Ctx) -> None:
 
 # ------------------------------------------------------------------------------------------ nop_regexes
 
-PATTERNS = [r"^CALL\s", r"alter\s+session", r"\s*GRANT\b", r"^create\s+(or\s+replace\s+)?stage", r"INSERT INTO AUDIT VALUES \('skip'", r"^\s*--\s*noop"]
+PATTERNS = [
+    r"^CALL\s", r"alter\s+session", r"\s*GRANT\b", r"^create\s+(or\s+replace\s+)?stage", r"INSERT INTO AUDIT VALUES \('skip'", r"^\s*--\s*noop",
+    # patterns that are only right when each is matched on its own: inline flags, groups, back-references, repeated group names
+    r"(?s)^call\s.*\)$", r"^(create|drop)\s+(stage)\s+(\w+)", r"^SELECT\s+'(\w+)'\s*=\s*'\1'", r"^(?P<verb>REVOKE)\s", r"^(?P<verb>SHOW)\s+GRANTS", r"^(?i:put|get)\s+file:",
+]
 NOP_STMTS = [
     ("start", "CALL SOME_PROC(1)", None),
     ("start", "call   other_proc('x')", None),
@@ -239,6 +251,13 @@ NOP_STMTS = [
     ("middle", "SELECT K FROM T WHERE S <> 'GRANT' ORDER BY K", None),
     ("after-params", "INSERT INTO AUDIT VALUES (%s)", ("skip",)),
     ("after-params-nomatch", "INSERT INTO AUDIT VALUES (%s)", ("keep",)),
+    ("start", "SELECT 'abc' = 'abc' AS SAME", None),
+    ("backref-nomatch", "SELECT 'abc' = 'abd' AS SAME", None),
+    ("start", "revoke select on t from role r", None),
+    ("start", "Show Grants To Role R", None),
+    ("start", "DROP STAGE S2", None),
+    ("start", "put file:///tmp/x.csv @my_stage", None),
+    ("start", "CALL MULTI(\n1,\n2\n)", None),
     ("none", "SELECT K, S FROM T ORDER BY K", None),
     ("none", "INSERT INTO T VALUES (7, 'seven')", None),
     ("none", "UPDATE T SET S = 'u' WHERE K = 1", None),
@@ -255,7 +274,7 @@ COMMENT_ON, ALTER_COMMENT = len(NOP_STMTS) - 3, len(NOP_STMTS) - 2
 @st.composite
 def _nop_case(draw, tier):
     return {
-        "patterns": draw(st.lists(st.integers(0, len(PATTERNS) - 1), max_size=3, unique=True)),
+        "patterns": draw(st.lists(st.integers(0, len(PATTERNS) - 1), max_size=5, unique=True)),
         "stmts": ([COMMENT_ON, ALTER_COMMENT] if draw(st.integers(0, 3)) == 0 else []) + draw(st.lists(st.integers(0, len(NOP_STMTS) - 1), min_size=1, max_size=6)),
         "same_cursor": draw(st.booleans()),
     }
@@ -268,10 +287,14 @@ def run_nop(case, ctx: Ctx) -> None:
     fs, twin = new_instance(nop_regexes=pats or None), new_instance()
     try:
         conn, tconn = fs.connect("db1", "s1"), twin.connect("db1", "s1")
-        for c_ in (conn, tconn):
-            c_.cursor().execute("CREATE TABLE T (K INT, S VARCHAR)")
-            c_.cursor().execute("INSERT INTO T VALUES (1, 'one'), (2, 'two')")
-            c_.cursor().execute("CREATE TABLE AUDIT (W VARCHAR)")
+        for c_ in (tconn, conn):
+            for sql in ("CREATE TABLE T (K INT, S VARCHAR)", "INSERT INTO T VALUES (1, 'one'), (2, 'two')", "CREATE TABLE AUDIT (W VARCHAR)"):
+                o = run(c_.cursor(), sql)  # none of these matches any pattern of the pool
+                if not o.ok:
+                    if c_ is tconn:
+                        raise RuntimeError(f"setup failed on the plain instance: {o}")
+                    ctx.fail(f"C16|nop|non-matching-statement-raises|setup|{o.etype}", f"patterns {pats}: `{sql}`: {o}")
+                    return
         cur, tcur = conn.cursor(), tconn.cursor()
         saw_match = saw_nomatch = False
         for si in case["stmts"]:
